@@ -23,10 +23,11 @@ ASSUMPTIONS = [
     "spans of member groups are computed with the real connect_locations (the subject of C04)",
     "the documented de-duplication (same coordinates -> one candidate; a group arriving at the coordinates of an existing stronger "
     "candidate is merged into it and the extra members also get singles) is part of the reference",
-    "kinds are only compared where the reference is unambiguous (no protocluster inside the core span of two different hybrid groups)",
+    "kinds are only compared where the reference is unambiguous (no protocluster inside the core span of two different hybrid groups; no two "
+    "groups of the same kind arriving at identical coordinates)",
 ]
 BOUNDS = {
-    "quick": "6 slots, line and ring, multisets of <= 3 from a 42-60 shape menu, all <= 6 supply orders",
+    "quick": "6 slots, line and ring, multisets of <= 3 from a 36-43 shape menu, all <= 6 supply orders; 4-sets with >= 3 equal core starts/ends (symmetric neighbourhoods, cores of <= 2 slots, 2 orders)",
     "thorough": "6 slots <= 3 of the full menu plus <= 4 of a 24-shape sub-menu, all <= 24 orders; 7 slots <= 3",
 }
 REQUIRED_BUCKETS = {t: ["kind:chemical_hybrid", "kind:interleaved", "kind:neighbouring", "kind:single", "origin-spanning-extent",
@@ -61,6 +62,7 @@ def reference(n, info, span_key, span_bases):
     cands = {}
     singles_extra = set()
     ambiguous = False
+    same_kind_collision = []
 
     def add(kind, members):
         key = span_key(members)
@@ -71,6 +73,9 @@ def reference(n, info, span_key, span_bases):
         extras = set(members) - emembers
         if not extras:
             return
+        if ekind == kind:
+            # two groups of the same kind at identical coordinates: which of them counts as 'existing' is not documented
+            same_kind_collision.append(key)
         cands[key] = (ekind, emembers | extras)
         singles_extra.update(extras)
 
@@ -113,7 +118,7 @@ def reference(n, info, span_key, span_bases):
         if key in cands and p in cands[key][1]:
             continue
         out.add(("single", frozenset([p])))
-    return out, ambiguous, bool(singles_extra)
+    return out, ambiguous or bool(same_kind_collision), bool(singles_extra)
 
 
 def run_config(nslots, circular, specs, order, bridging_gene=False):
@@ -224,6 +229,10 @@ def menu_for(nslots, circular, tier, size):
 
 def shards(tier):
     out = []
+    # boundary-coincidence family: four protoclusters of which at least three share a core start or a core end (two supply orders)
+    for circ in (False, True):
+        for chunk in range(N_CHUNKS):
+            out.append([6, circ, "coincide4", chunk, tier])
     plans = [(6, False, 3), (6, True, 3)]
     if tier == "thorough":
         plans += [(6, False, 4), (6, True, 4), (7, True, 3)]
@@ -233,7 +242,45 @@ def shards(tier):
     return out
 
 
+def run_coincide4(shard):
+    nslots, circ, _, chunk, tier = shard
+    res = Result()
+    L = nslots * P.SLOT
+    full = [m for m in P.protocluster_menu(nslots, circ) if P.make_protocluster(L, circ, m) is not None]
+    if tier == "thorough":
+        menu = full
+    else:
+        # quick: symmetric neighbourhoods and cores of at most two slots
+        menu = [m for m in full if (m[2], m[3]) != (0, 2) and (m[1] - m[0]) % nslots <= 1]
+    index = 0
+    for key in (("start", "end") if tier == "thorough" else ("start",)):
+        groups = {}
+        for m in menu:
+            groups.setdefault(m[0] if key == "start" else m[1], []).append(m)
+        for shared in groups.values():
+            for trio in itertools.combinations(shared, 3):
+                for fourth in menu:
+                    if fourth in trio:
+                        continue
+                    index += 1
+                    if index % N_CHUNKS != chunk:
+                        continue
+                    specs = list(trio) + [fourth]
+                    res.evals += 1
+                    res.nontrivial += 1
+                    fails = check_config(nslots, circ, specs, orders=[(0, 1, 2, 3), (3, 2, 1, 0)], stats=res.buckets)
+                    res.outcomes[("coincide4", tuple(sorted(c.split(":")[0] for c, _ in fails)))] += 1
+                    if fails or res.evals % 1009 == 1:
+                        case = {"nslots": nslots, "circ": circ, "specs": specs}
+                        for clause, detail in fails:
+                            res.fail(case, clause, detail)
+                        res.sample(case)
+    return res
+
+
 def run_shard(shard):
+    if shard[2] == "coincide4":
+        return run_coincide4(shard)
     nslots, circ, size, chunk, tier = shard
     res = Result()
     menu = menu_for(nslots, circ, tier, size)
